@@ -14,7 +14,7 @@ RULE = ("for each input (data, hyper-parameters, generator seed): a reference di
         "(input, configuration, observed permutation)")
 ASSUMPTIONS = ["completion order observed through apply_async callbacks in the parent's result-handler thread",
                "all interpreters run with OMP/OPENBLAS threads = 1 so BLAS reductions are comparable"]
-SHARD_TIMEOUT = {"quick": 900, "thorough": 3400}
+SHARD_TIMEOUT = {"quick": 300, "thorough": 3400}
 
 
 def plan(tier, seed):
